@@ -6,6 +6,7 @@ import (
 	"errors"
 	"fmt"
 	"net"
+	"os"
 	"sync"
 	"time"
 
@@ -184,4 +185,14 @@ func (c *GWConn) Serve(h func(id types.Specifier, s *gateway.Stream)) error {
 			h(id, s)
 		}()
 	}
+}
+
+// ListenIP returns the k-th loopback address this process listens on. The
+// address space 127.128.0.0/9 is partitioned by process id, so that test
+// processes running side by side (shards, other checks) never reuse each
+// other's (address, port) pairs - a port freed by a closed listener cannot be
+// taken over by a foreign listener that would answer in its place.
+func ListenIP(k int) string {
+	pid := os.Getpid()
+	return fmt.Sprintf("127.%d.%d.%d", 128+(pid>>8)%120, pid&255, 1+modn(k, 250))
 }
